@@ -414,6 +414,15 @@ class Resolver:
                 fn = self.prog.find_method(f.cls.qualname, v.attr)
                 if fn is not None:
                     out.append(fn)
+            elif isinstance(v, ast.Call) and isinstance(v.func, ast.Attribute) and isinstance(v.func.value, ast.Name) and v.func.value.id == "self" and f.cls:
+                # x = self.<selector>(...) where the selector returns bound methods of the same object (`return self.__consume_normal` ...)
+                sel = self.prog.find_method(f.cls.qualname, v.func.attr)
+                if sel is not None and not isinstance(sel.node, ast.Lambda):
+                    for r in _walk_no_defs(sel.node.body):
+                        if isinstance(r, ast.Return) and isinstance(r.value, ast.Attribute) and isinstance(r.value.value, ast.Name) and r.value.value.id == "self":
+                            m = self.prog.find_method(f.cls.qualname, r.value.attr)
+                            if m is not None and m not in out:
+                                out.append(m)
         return out
 
     def dict_attr_methods(self, c: ClassInfo, attr: str) -> list[FuncInfo]:
